@@ -685,6 +685,7 @@ fn process_tags(
     while !tags.is_empty() && remain.len() != tags.len() {
         #[cfg(feature = "verif-hooks")]
         crate::verif::count_retry_pass();
+        let progress_before = context.progress();
         for (idx, t) in &mut tags.iter_mut() {
             #[cfg(feature = "verif-hooks")]
             crate::verif::sched_point("tag");
@@ -710,7 +711,10 @@ fn process_tags(
                 return Err(fatal);
             }
         }
-        if tags.len() == remain.len() {
+        // Give up when a whole pass got nowhere: no tag of this list completed, and
+        // neither did any element nested in one of them (which a tag of this list may
+        // be waiting for) complete for the first time.
+        if tags.len() == remain.len() && context.progress() == progress_before {
             return Err(SvgdxError::MultiError(element_errors));
         }
 
